@@ -426,7 +426,27 @@ def check(cfg, ops, seed, counters):
                 if a != b:
                     dec = common.decode_all(b)
                     idx = common.ExtentIndex(common.full_extent_map(dec))
-                    if len(a) != len(b):
+                    # The continuation areas of Rock Ridge entries are handed out as the history goes: one
+                    # that was allocated while the catalog's names still held room stays where it is (in
+                    # a further block, even) when they go away.  That is fragmentation of the continuation
+                    # blocks, not residue of El Torito, as long as both images decode to the same trees
+                    # with the same continuation areas (number and lengths) and no boot record.
+                    frag_only = False
+                    if len(a) != len(b) and cfg.rr and (len(a) - len(b)) % 2048 == 0:
+                        da_, db_ = common.decode_all(a), common.decode_all(b)
+                        if da_['susp'] is not None and db_['susp'] is not None and da_['susp'].present and db_['susp'].present:
+                            def sig_(d):
+                                t = {p: (n.kind, n.length, n.hidden) for p, n in d['ecma'].pvd.tree.items()}
+                                r = {p: (n.kind, n.mode, n.target, n.nlink) for p, n in d['susp'].logical.items()}
+                                j = {p: (n.kind, n.length) for p, n in d['ecma'].joliet.tree.items()} if d['ecma'].joliet is not None else {}
+                                areas = sorted(e_ - s_ for ent in d['susp'].entries.values() for (s_, e_) in ent.ce_areas)
+                                return t, r, j, areas, sorted(d['ecma'].all_problems()), sorted(d['susp'].problems)
+                            nce = lambda d: sum(1 for k_, _i, _s, _e in common.full_extent_map(d) if k_ == 'rr-ce-sector')
+                            frag_only = (sig_(da_) == sig_(db_) and not da_['eltorito'].present and not db_['eltorito'].present
+                                         and (nce(da_) - nce(db_)) * 2048 == len(a) - len(b))
+                            if frag_only:
+                                counters['twin_ce_fragmentation_only'] = counters.get('twin_ce_fragmentation_only', 0) + 1
+                    if len(a) != len(b) and not frag_only:
                         vio.append({'key': 'rm-residue:size', 'detail': 'after rm_eltorito %d bytes, never-added twin %d bytes' % (len(a), len(b))})
                     found = []
                     for s, e in common.diff_ranges(a, b, limit=6):
@@ -448,7 +468,7 @@ def check(cfg, ops, seed, counters):
                         layout_only = sig(da) == sig(db) and not da['eltorito'].present
                         if layout_only:
                             counters['twin_layout_only_diff'] = counters.get('twin_layout_only_diff', 0) + 1
-                    if not layout_only:
+                    if not layout_only and not frag_only:
                         for kind, s, e in found:
                             vio.append({'key': 'rm-residue:%s' % kind, 'detail': 'bytes %d..%d differ from the twin that never had El Torito' % (s, e)})
             tw.close()
